@@ -66,7 +66,7 @@ structure Member (cfg : Cfg) (al : Bool) (f : CField) : Prop where
     s.size = some esz ∧ f.ty.size cfg = some (cnt.getD 1 * esz) ∧ expectDec cfg f.ty = some (slotDec f.ty s esz) ∧
     (isPacked s = true ∨ (isPacked s = false ∧ isByteBased s = true))
 
-theorem isVoid_eq {ty : Ty} (h : isVoid ty = true) : ∃ a, ty = .sc .void a := by
+theorem isVoid_sc {ty : Ty} (h : isVoid ty = true) : ∃ a, ty = .sc .void a := by
   cases ty with
   | sc s a => cases s <;> simp [isVoid] at h; exact ⟨a, rfl⟩
   | _ => simp [isVoid] at h
